@@ -46,7 +46,8 @@ def optimize_prec_assignment(model: MPS,
 
     # Modify the sampling strategy to be argmax before the precisions reassignment.
     # Perform a dummy forward pass to ensure the theta alpha values are updated.
-    model.update_softmax_options(hard=True)
+    # (plain arg-max: not a Gumbel sample, and with sampling enabled)
+    model.update_softmax_options(hard=True, gumbel=False, disable_sampling=False)
     model(model._input_example)
 
     with torch.no_grad():
